@@ -66,7 +66,9 @@ def c14(tier, seed):
               desc="switch_state_mapping single step vs reference transition function; recursion depth <= 14 asserted"),
         Query("c14_tick", "c14_mapping.c", "h_tick", unwind=17, bounds=dict(b, table="16 arbitrary entries or no table", t0="inactivity timer armed at t0<=now"),
               backends=("cadical", "minisat", "kissat"),
-              desc="automata_tick after mapping_reset_inactive_timeout: >30 s => idle, ctc 0, table empty; <30 s => untouched"),
+              desc="automata_tick after mapping_reset_inactive_timeout: >30 s => idle, ctc 0, table empty; <30 s => untouched, deadline still armed"),
+        Query("c14_two_ticks", "c14_mapping.c", "h_two_ticks", unwind=17, bounds=dict(b, ticks="one tick at any time before the deadline, one after it"),
+              backends=("cadical", "minisat", "kissat"), desc="two ticks around the 30 s deadline with arbitrary charge state in between"),
     ]
 
 
@@ -120,6 +122,11 @@ def c12(tier, seed):
 def c11(tier, seed):
     qs = []
     mtus = [576] if tier == "quick" else [576, 1500]
+    if tier == "quick":
+        nst = (1500 - 36) // 6
+        qs.append(Query("c11_position_1500", "c11_classify.c", "h_position", defines=["MTU=1500"], unwind=nst + 2,
+                        bounds={"frame": "1500 arbitrary bytes", "station count": "1..%d" % nst, "position": "symbolic 0..count-1"},
+                        backends=("cadical", "minisat", "kissat"), timeout=1200, mem_gb=12, desc="own address at a symbolic list position is recognised (counts up to 244)"))
     for m in mtus:
         nst = (m - 36) // 6
         b = {"frame": "%d arbitrary bytes (every opcode 0..255)" % m, "station count": "0..%d" % nst, "own address": "2^48", "table": "16 arbitrary entries or none", "position": "symbolic 0..count-1"}
